@@ -12,7 +12,11 @@ validator.ReplaceRule(rule.Name, rule.RuleFunc)  // range specifiedRules; found 
 validator.Validate(schema, doc)                  // rules = specifiedRules
 ```
 
-(gqlparser v2.5.25 `validator/validator.go`). Each of these reads the package variable once (the
+(gqlparser v2.5.25 `validator/validator.go`). Since the `fix:` commit f280ab8 the first two calls run
+inside `validatorRulesMu.Lock()`/`Unlock()` and `Validate` inside `RLock()`/`RUnlock()`; whether the
+source still has these lock regions is re-read on every run (`Gen.PipelineSteps.parseQuerySteps`,
+`Steps.swapAtomic`) and selects the program: locked → the swap is the single atomic step `Pc.swap`;
+otherwise the fine-grained program below (the code before the fix). Each of the calls reads the package variable once (the
 `range` expression / the `append` argument / the assignment in `Validate`) and writes it once, so a
 request thread is the straight-line program below over one shared variable; threads interleave at
 the granularity of these reads and writes (`Sched`: a schedule is the list of thread indices that take
@@ -23,6 +27,7 @@ namespace GqlgenVerif.Pipeline.Race
 
 /-- program counter of one request thread inside `parseQuery` -/
 inductive Pc where
+  | swap          -- both calls inside `validatorRulesMu.Lock()`…`Unlock()`: one atomic step
   | rmRead        -- RemoveRule: evaluate `range specifiedRules`
   | rmWrite       -- RemoveRule: `specifiedRules = result`
   | rpRead        -- ReplaceRule: evaluate `range specifiedRules`
@@ -49,6 +54,7 @@ structure State where
 /-- one atomic step of thread `t` against the shared variable `g` -/
 def stepThread (g : Rules) (t : Thread) : Rules × Thread :=
   match t.pc with
+  | .swap => (swapRules g, { t with pc := .valRead })
   | .rmRead => (g, { t with pc := .rmWrite, loc := removeRule .foct g })
   | .rmWrite => (t.loc, { t with pc := .rpRead })
   | .rpRead =>
@@ -78,7 +84,10 @@ def exec : State → List Nat → State
   | s, [] => s
   | s, i :: is => exec (step s i) is
 
-def start (g : Rules) (n : Nat) : State := { global := g, threads := List.replicate n { pc := .rmRead } }
+/-- `n` request threads entering the rule swap; `atomic` = the swap is one step (it runs under the
+writer lock and every `Validate` under the reader lock, `Steps.swapAtomic` of the source skeleton) -/
+def start (atomic : Bool) (g : Rules) (n : Nat) : State :=
+  { global := g, threads := List.replicate n { pc := if atomic then .swap else .rmRead } }
 
 /-- a field-existence rule (either variant) is in the list -/
 def hasFieldRule (l : Rules) : Bool := l.contains .foct || l.contains .ws
